@@ -5,6 +5,8 @@ package app
 // material and different sessions different material; attackers are scripts.
 
 import (
+	"crypto/hmac"
+	"crypto/sha256"
 	"context"
 	"encoding/json"
 	"fmt"
@@ -327,10 +329,13 @@ func (authHarness) Run(spec any) (res verifsim.RunResult) {
 					case "replay":
 						st.Write(oldS)
 					case "roleswap":
-						key, _ := deriveAuthKey(simConn{a}, sp.AttCode)
-						nonce, _ := randomNonce()
+						key := atkKey(simConn{a}, sp.AttCode)
+						nonce := make([]byte, 16)
+						for i := range nonce {
+							nonce[i] = byte(s.Data.Next())
+						}
 						// a receiver-role proof sent in the sender's place, under a code the attacker holds
-						_ = writeAuthMessage(ctx, st, authRoleReceive, nonce, computeAuthMac(key, authRoleReceive, nonce))
+						st.Write(atkMsg(authRoleReceive, nonce, atkMac(key, authRoleReceive, nonce)))
 						if sp.AttCode == sp.CodeR {
 							// still not a sender proof: must be refused
 						}
@@ -377,10 +382,10 @@ func (authHarness) Run(spec any) (res verifsim.RunResult) {
 						st.Write(sMsg)
 					case "roleswap":
 						// the victim's nonce re-used under the attacker's code with the receiver role
-						key, _ := deriveAuthKey(simConn{a}, sp.AttCode)
+						key := atkKey(simConn{a}, sp.AttCode)
 						if len(sMsg) == authMsgSize {
-							nonce := sMsg[2 : 2+authNonceSize]
-							_ = writeAuthMessage(ctx, st, authRoleReceive, nonce, computeAuthMac(key, authRoleSender, nonce))
+							nonce := sMsg[2 : 2+16]
+							st.Write(atkMsg(authRoleReceive, nonce, atkMac(key, authRoleSender, nonce)))
 						}
 					case "random":
 						b := make([]byte, authMsgSize)
@@ -465,4 +470,30 @@ func (authHarness) Run(spec any) (res verifsim.RunResult) {
 	res.Violations = viol
 	res.Sample = map[string]any{"spec": sp, "sender_result": fmt.Sprint(outS.err), "receiver_result": fmt.Sprint(outR.err)}
 	return
+}
+
+// The attacker's own implementation of the authentication wire format (version,
+// role, 16-byte nonce, HMAC-SHA256 over version|role|nonce under a key derived
+// from join code and exported keying material), written from the protocol, so
+// that the harness does not depend on the product's helper functions.
+func atkKey(c interface {
+	ExportKeyingMaterial(label string, context []byte, length int) ([]byte, error)
+}, code string) []byte {
+	ekm, _ := c.ExportKeyingMaterial("thruflux-auth-v1", nil, 32)
+	m := hmac.New(sha256.New, []byte(code))
+	m.Write(ekm)
+	return m.Sum(nil)
+}
+
+func atkMac(key []byte, role byte, nonce []byte) []byte {
+	m := hmac.New(sha256.New, key)
+	m.Write([]byte{1, role})
+	m.Write(nonce)
+	return m.Sum(nil)
+}
+
+func atkMsg(role byte, nonce, mac []byte) []byte {
+	b := []byte{1, role}
+	b = append(b, nonce...)
+	return append(b, mac...)
 }
